@@ -398,7 +398,7 @@ def composite_entries(sh, o, kind):
 @register
 class C03(BtProp):
     pid = "C03"
-    profiles = [("seq", 0.7), ("core", 0.3)]
+    profiles = [("seq", 0.7), ("coreprobe", 0.3)]
     keep = "TN"
     keep_events = "EUXY"
     keep_own = False
@@ -424,11 +424,10 @@ class C03(BtProp):
             if fresh or not mem:
                 start = 0
             else:
-                pc = cur_of(prev, q)
-                if pc in kids:
-                    start = kids.index(pc)
-                else:   # current child removed by an edit: first child that has not succeeded
-                    start = next((j for j, c in enumerate(kids) if st_of(prev, c) != "S"), len(kids))
+                # the child that was RUNNING on the previous tick; if an edit removed it, the first child that has
+                # not succeeded yet
+                start = next((j for j, c in enumerate(kids) if st_of(prev, c) == "R"),
+                             next((j for j, c in enumerate(kids) if st_of(prev, c) != "S"), len(kids)))
             if mine != kids[start:start + len(mine)]:
                 out.append(viol("order", "sequence %d (mem=%s fresh=%s) ticked %s, children %s, expected start %d"
                                 % (q, mem, fresh, mine, kids, start), mem=mem))
@@ -495,7 +494,7 @@ class C03(BtProp):
 @register
 class C04(BtProp):
     pid = "C04"
-    profiles = [("sel", 0.7), ("core", 0.3)]
+    profiles = [("sel", 0.7), ("coreprobe", 0.3)]
     keep = "TN"
     keep_events = "EUXY"
     keep_own = False
@@ -519,10 +518,11 @@ class C04(BtProp):
                     out.append(viol("empty-selector", "empty selector %d returned %s" % (q, Y.get(q))))
                 continue
             pc = cur_of(prev, q)
-            if fresh or not mem or pc not in kids:
+            if fresh or not mem:
                 start = 0
             else:
-                start = kids.index(pc)
+                # the child that was RUNNING on the previous tick (every priority again if an edit removed it)
+                start = next((j for j, c in enumerate(kids) if st_of(prev, c) == "R"), 0)
             if mine != kids[start:start + len(mine)] or not mine:
                 out.append(viol("order", "selector %d (mem=%s fresh=%s) ticked %s, children %s, expected start %d"
                                 % (q, mem, fresh, mine, kids, start), mem=mem))
@@ -551,7 +551,9 @@ class C04(BtProp):
                 out.append(viol("one-running", "selector %d has RUNNING children %s, selected %s"
                                 % (q, running_kids, sel)))
             if sel is not None:
-                prev_sel = pc if not fresh else None
+                prev_sel = next((c for c in kids if st_of(prev, c) in ("R", "S")), None) if not fresh else None
+                if prev_sel is None and not fresh:
+                    prev_sel = pc
                 if sel != prev_sel:
                     for c in kids[kids.index(sel) + 1:]:
                         if st_of(o, c) != "I":
@@ -602,7 +604,7 @@ def policy_valid(sh, q):
 @register
 class C05(BtProp):
     pid = "C05"
-    profiles = [("par", 0.75), ("core", 0.25)]
+    profiles = [("par", 0.75), ("coreprobe", 0.25)]
     keep = "TN"
     keep_events = "EUXY"
     keep_own = False
@@ -696,7 +698,7 @@ def dec_kind(sh, i):
 @register
 class C09(BtProp):
     pid = "C09"
-    profiles = [("dec", 0.6), ("stock", 0.2), ("core", 0.2)]
+    profiles = [("dec", 0.6), ("stock", 0.2), ("coreprobe", 0.2)]
     keep = "TNW"
     keep_events = "EUXY"
     rule = ("random trees biased to decorators (stacked, over composites, under every parent); per tick the decorator's "
@@ -778,7 +780,7 @@ class C09(BtProp):
 @register
 class C10(BtProp):
     pid = "C10"
-    profiles = [("dec", 0.8), ("core", 0.2)]
+    profiles = [("dec", 0.8), ("coreprobe", 0.2)]
     keep = "TN"
     keep_events = "EUXY"
     rule = ("random trees biased to decorators with counts 0..4 (and -1), both one-shot policies, awaited statuses, "
@@ -891,7 +893,7 @@ class C10(BtProp):
 @register
 class C19(BtProp):
     pid = "C19"
-    profiles = [("core", 0.5), ("seqsel", 0.5)]
+    profiles = [("coreprobe", 0.5), ("seqsel", 0.5)]
     keep = "NP"
     keep_own = False
     keep_cur = True
@@ -925,3 +927,167 @@ class C19(BtProp):
                 tips.append(o.P.get(r))
         changes = sum(1 for a, b in zip(tips, tips[1:]) if a != b)
         return text_hash(s.text()) if changes >= 2 else None
+
+
+# ---------------------------------------------------------------------------------------------
+# C17 stock behaviours
+# ---------------------------------------------------------------------------------------------
+
+def _get(W, key, path):
+    from common import val_parse, Obj
+    if key not in W:
+        return False, None
+    v = val_parse(W[key])
+    if path != "-":
+        for a in path.split("."):
+            if isinstance(v, Obj) and hasattr(v, a):
+                v = getattr(v, a)
+            else:
+                return False, None
+    return True, v
+
+
+def _cmp(op, a, b):
+    import operator
+    try:
+        return {"eq": operator.eq, "ne": operator.ne, "lt": operator.lt, "le": operator.le, "gt": operator.gt,
+                "ge": operator.ge}[op](a, b)
+    except TypeError:
+        return None
+
+
+WRITERS = ("set", "unset", "cvs")
+
+
+@register
+class C17(BtProp):
+    pid = "C17"
+    profiles = [("stock", 1.0)]
+    keep = "TNW"
+    keep_events = "IUX"
+    rule = ("random trees whose leaves are the stock behaviours over a 4-variable blackboard (absent / ints / bools / "
+            "statuses / None / objects with or without the nested attribute), every operator, durations / queues / n from "
+            "0..4, controlled clock, interrupts, re-entry, values poked between ticks; the status of every stock leaf "
+            "update is recomputed from the documented rule; non-trivial = >= 3 different stock kinds were ticked and one "
+            "of them was re-entered after an interruption or completion")
+
+    def check_history(self, sh, obs):
+        from common import val_parse
+        out = []
+        cnt = {}       # leaf -> updates since initialise
+        total = {}     # leaf -> updates overall
+        entry = {}     # leaf -> clock at initialise
+        prevW = {}
+        for o in obs:
+            if not o.ok:
+                break
+            if o.op.startswith("tick"):
+                now = 0
+                for t in o.op.split():
+                    if t.startswith("t="):
+                        now = int(t[2:])
+                dirty = False    # a blackboard writer ran earlier in this tick
+                for e in o.T:
+                    k, i, st = e
+                    n = sh.node[i]
+                    if k == "E":
+                        if (n[0] == "L" and n[2][0] in WRITERS) or (n[0] == "D" and n[2].startswith("s2b")):
+                            dirty_next = True
+                        else:
+                            dirty_next = False
+                    if n[0] != "L":
+                        if k == "Y" and n[0] == "D" and n[2].startswith("s2b"):
+                            dirty = True
+                        continue
+                    kind = n[2][0]
+                    if k == "I":
+                        cnt[i] = 0
+                        entry[i] = now
+                    if k != "U":
+                        continue
+                    cnt[i] = cnt.get(i, 0) + 1
+                    total[i] = total.get(i, 0) + 1
+                    want = None
+                    a = [str(x) for x in n[2]]
+                    if kind == "const":
+                        want = a[1]
+                    elif kind == "tc":
+                        want = "R" if cnt[i] <= int(a[1]) else a[2]
+                    elif kind == "sq":
+                        q = a[1]
+                        kk = total[i] - 1
+                        if kk < len(q):
+                            want = q[kk]
+                        elif a[2] != "-":
+                            want = a[2]
+                        else:
+                            want = q[kk % len(q)]
+                    elif kind == "sen":
+                        want = "S" if total[i] % int(a[1]) == 0 else "F"
+                    elif kind == "timer":
+                        want = "S" if now > entry.get(i, now) + int(a[1]) else "R"
+                    elif not dirty:
+                        W = prevW
+                        if kind in ("cex", "wf"):
+                            ok, _ = _get(W, a[1], a[2])
+                            want = "S" if ok else ("F" if kind == "cex" else "R")
+                        elif kind in ("cv", "wv"):
+                            ok, v = _get(W, a[1], a[2])
+                            r = _cmp(a[3], v, val_parse(a[4])) if ok else False
+                            if r is not None:
+                                want = "S" if r else ("F" if kind == "cv" else "R")
+                        elif kind == "unset":
+                            want = "S"
+                        elif kind == "set":
+                            if a[4] == "0" and a[1] in W:
+                                want = "F"
+                            elif a[2] == "-":
+                                want = "S"
+                        elif kind == "b2s":
+                            ok, v = _get(W, a[1], a[2])
+                            if ok and hasattr(v, "name") and W_is_status(v):
+                                want = {"SUCCESS": "S", "FAILURE": "F", "RUNNING": "R", "INVALID": "I"}[v.name]
+                    if kind in WRITERS:
+                        dirty = True
+                    if want is not None and st != want:
+                        out.append(viol(kind, "%s leaf %d at `%s` returned %s, documented rule says %s (updates since entry "
+                                        "%d, overall %d)" % (" ".join(a), i, o.op, st, want, cnt[i], total[i]), kind=kind))
+                # effects visible afterwards
+                for i, n in sh.node.items():
+                    if n[0] == "L" and n[2][0] == "unset" and ("U", i, "S") in o.T:
+                        later_writer = False
+                        ent = entered(o)
+                        for j in ent[ent.index(i) + 1:] if i in ent else []:
+                            m = sh.node[j]
+                            if (m[0] == "L" and m[2][0] in ("set", "cvs")) or (m[0] == "D" and m[2].startswith("s2b")):
+                                later_writer = True
+                        if not later_writer and str(n[2][1]) in o.W and not any(
+                                sh.node[j][0] == "D" and sh.node[j][2].startswith("s2b") for j in sh.node):
+                            out.append(viol("unset-effect", "UnsetBlackboardVariable %d ran but %s still has a value"
+                                            % (i, n[2][1])))
+            prevW = dict(o.W)
+            if out:
+                break
+        return out
+
+    def nontrivial_key(self, s, lines):
+        sh = Shape(scn_spec(s))
+        kinds = set()
+        reentered = False
+        inits = {}
+        for o in parse_obs(lines):
+            if not o.ok:
+                break
+            for e in o.T:
+                if e[0] == "U" and sh.is_leaf(e[1]) and sh.node[e[1]][2][0] != "probe":
+                    kinds.add(sh.node[e[1]][2][0])
+                if e[0] == "I" and sh.is_leaf(e[1]) and sh.node[e[1]][2][0] != "probe":
+                    inits[e[1]] = inits.get(e[1], 0) + 1
+                    if inits[e[1]] >= 2:
+                        reentered = True
+        return text_hash(s.text()) if len(kinds) >= 3 and reentered else None
+
+
+def W_is_status(v):
+    from common import Status
+    return isinstance(v, Status)
